@@ -41,7 +41,7 @@ func init() {
 				defer func() { <-sem }()
 				out := filepath.Join(c.S.Dir, fmt.Sprintf("readers%d.ndjson", i))
 				env := append(goEnv(), "GORACE=halt_on_error=1 exitcode=66")
-				o, err := run(c.S.Repo, env, 30*time.Minute, hrace, "readers", "--type", t.Name, "--n", fmt.Sprint(c.pick(3, 25)), "--reps", fmt.Sprint(c.pick(3, 8)), "--seed", fmt.Sprint(c.Seed*100+int64(i)), "--out", out)
+				o, err := run(c.S.Repo, env, 30*time.Minute, hrace, "readers", "--type", t.Name, "--n", fmt.Sprint(c.pick(3, 60)), "--reps", fmt.Sprint(c.pick(3, 8)), "--seed", fmt.Sprint(c.Seed*100+int64(i)), "--out", out)
 				mu.Lock()
 				defer mu.Unlock()
 				if err != nil {
